@@ -46,11 +46,12 @@ class FakeLib:
 _SCRIPT = None
 
 
-def script():
+def script(graph=0):
+    """a grid script (0) or a graph script (1): the two go through different set-up routines of the wrapper"""
     global _SCRIPT
     if _SCRIPT is None:
-        _SCRIPT = RDScript(mk_system(0, 0, 0), [0, 1.0])
-    return _SCRIPT
+        _SCRIPT = [RDScript(mk_system(0, 0, 0), [0, 1.0]), RDScript(mk_system(0, 1, 0), [0, 1.0])]
+    return _SCRIPT[graph % 2]
 
 
 OPS = ["setup", "iterate", "iterate_n", "run", "sample", "finalize"]
@@ -60,11 +61,16 @@ def completion_refers_to_current_setup(life, o0, o1, o2, o3, o4):
     """after any sequence of wrapper calls starting with setup, is_complete() is True iff the CURRENT set-up has finished"""
     lib = FakeLib(life)
     e = LibRDEngine(lib, option="euler")
-    e.setup(script())
+    # the space type alternates from one set-up to the next (grid, graph, grid, ... or the reverse, from the parity of `life + o0`)
+    nsetup = [life + o0]
+    def nxt():
+        nsetup[0] += 1
+        return script(nsetup[0])
+    e.setup(nxt())
     for o in (o0, o1, o2, o3, o4):
         op = OPS[o]
         if op == "setup":
-            e.setup(script())
+            e.setup(nxt())
         elif op == "iterate":
             e.iterate()
         elif op == "iterate_n":
@@ -75,7 +81,7 @@ def completion_refers_to_current_setup(life, o0, o1, o2, o3, o4):
             e.sample()
         elif op == "finalize":
             e.finalize()
-            e.setup(script())
+            e.setup(nxt())
         if e.is_complete() != (lib.done >= lib.life and lib.life > 0 and lib.done > 0):
             return False
     return True
